@@ -87,7 +87,17 @@ type adClassify struct {
 	Variant string `json:"variant"`
 }
 
+// adEncoding: one hand-crafted serialisation of the Any of message type T (items as in spec/Adapters.tla, section "encodings")
+type adEncoding struct {
+	Adapter string   `json:"adapter"`
+	T       string   `json:"t"` // full type URL of the real type
+	D       string   `json:"d"` // full type URL of the decoy
+	Items   []string `json:"items"`
+}
+
 type adJob struct {
+	Encodings []adEncoding `json:"encodings"`
+	Fixture   string       `json:"fixture"` // stored ECDSA key: library oracle and genuine value bytes for the ECDSA adapter
 	// MaxHung: once that many runs with a default deadline did not finish, the remaining sessions are skipped (a defect that
 	// stalls every run must not turn the check into a sequence of deadlines)
 	MaxHung   int          `json:"max_hung"`
@@ -949,9 +959,303 @@ func adClassifyExec(job adJob, em *emitter) {
 		}
 		r.log(obj{"e": "tcls", "i": i, "ad": c.Adapter, "k": c.Kind, "var": c.Variant, "url": adShort(url), "r": int(round), "bc": bc, "err": err != nil})
 	}
+	adEncodingExec(job, r)
 	r.log(obj{"e": "end", "hung": false, "setup": true, "fired": true})
 	em.lines(r.lines)
 	em.flush()
+}
+
+// ---- hand-crafted encodings: does the receiver's classification follow what the library processes the bytes as? ---------------
+
+// pbAnyValue returns the value field (2) of a serialised Any (last occurrence)
+func pbAnyValue(b []byte) []byte {
+	var val []byte
+	i := 0
+	for i < len(b) {
+		tag := uint64(0)
+		sh := uint(0)
+		for i < len(b) {
+			c := b[i]
+			i++
+			tag |= uint64(c&0x7f) << sh
+			if c < 0x80 {
+				break
+			}
+			sh += 7
+		}
+		if tag&7 != 2 {
+			return val
+		}
+		n := uint64(0)
+		sh = 0
+		for i < len(b) {
+			c := b[i]
+			i++
+			n |= uint64(c&0x7f) << sh
+			if c < 0x80 {
+				break
+			}
+			sh += 7
+		}
+		if uint64(i)+n > uint64(len(b)) {
+			return val
+		}
+		if tag>>3 == 2 {
+			val = b[i : i+int(n)]
+		}
+		i += int(n)
+	}
+	return val
+}
+
+func pbLenFieldNonMinimal(field int, data []byte) []byte {
+	b := pbVarint(uint64(field<<3 | 2))
+	l := pbVarint(uint64(len(data)))
+	l[len(l)-1] |= 0x80 // one more (empty) group of seven bits: a longer spelling of the same number
+	l = append(l, 0x00)
+	b = append(b, l...)
+	return append(b, data...)
+}
+
+// adBuildEncoding turns the abstract items into bytes
+func adBuildEncoding(items []string, real, decoy string, v, w []byte) []byte {
+	var b []byte
+	for _, it := range items {
+		switch it {
+		case "Ur":
+			b = append(b, pbLenField(1, []byte(real))...)
+		case "Ud":
+			b = append(b, pbLenField(1, []byte(decoy))...)
+		case "Urn":
+			b = append(b, pbLenFieldNonMinimal(1, []byte(real))...)
+		case "Udn":
+			b = append(b, pbLenFieldNonMinimal(1, []byte(decoy))...)
+		case "Ue":
+			b = append(b, pbLenField(1, nil)...)
+		case "Uu":
+			b = append(b, pbLenField(1, []byte(adURLPrefix+"nosuch.Message"))...)
+		case "V":
+			b = append(b, pbLenField(2, v)...)
+		case "Vn":
+			b = append(b, pbLenFieldNonMinimal(2, v)...)
+		case "W":
+			b = append(b, pbLenField(2, w)...)
+		case "Xv":
+			b = append(b, 15<<3|0, 0x96, 0x01)
+		case "Xl":
+			b = append(b, pbLenField(14, []byte("extra"))...)
+		case "X5":
+			b = append(b, 13<<3|5, 1, 2, 3, 4)
+		case "X1":
+			b = append(b, 12<<3|1, 1, 2, 3, 4, 5, 6, 7, 8)
+		case "G":
+			b = append(b, 0x0a, 0x7f, 0x41) // a field that announces 127 bytes and has one
+		}
+	}
+	return b
+}
+
+// adOracleLogger reads, from what the adapter logs, what the LIBRARY made of a message: a message of a non-participant is
+// rejected by tss-lib with "received msg with an invalid sender: Type: <proto name>, From: ..." -- the type it parsed the bytes as.
+type adOracleLogger struct {
+	ch      chan string
+	dropped int32
+}
+
+func (l *adOracleLogger) Debugf(string, ...interface{}) {}
+func (l *adOracleLogger) Errorf(string, ...interface{}) {}
+func (l *adOracleLogger) Warnf(format string, a ...interface{}) {
+	if strings.Contains(format, "updating party") {
+		select {
+		case l.ch <- fmt.Sprintf(format, a...):
+		default:
+		}
+		return
+	}
+	atomic.AddInt32(&l.dropped, 1)
+}
+
+type adOracle struct {
+	party  adParty
+	lg     *adOracleLogger
+	cancel context.CancelFunc
+}
+
+func adNewOracle(ad string, fixture string) *adOracle {
+	lg := &adOracleLogger{ch: make(chan string, 64)}
+	ctx, cancel := context.WithCancel(context.Background())
+	o := &adOracle{lg: lg, cancel: cancel}
+	if ad == "eddsa" {
+		p := eddsaad.NewParty(1, lg)
+		p.Init([]uint16{1, 2}, 1, func([]byte, bool, uint16) {})
+		go func() {
+			defer func() { recover() }()
+			p.KeyGen(ctx)
+		}()
+		o.party = p
+		return o
+	}
+	sh, err := afShares("ecdsa", []int{1, 2, 3}, 1, fixture)
+	if fixture == "" || err != nil {
+		cancel()
+		return nil
+	}
+	p := ecdsaad.NewParty(1, lg)
+	if p.SetShareData(sh[1]) != nil {
+		cancel()
+		return nil
+	}
+	p.Init([]uint16{1, 2, 3}, 1, func([]byte, bool, uint16) {})
+	go func() {
+		defer func() { recover() }()
+		p.Sign(ctx, []byte("oracle digest oracle digest 0123"))
+	}()
+	o.party = p
+	return o
+}
+
+// ask: hands the bytes to OnMsg as coming from a non-participant; returns (observed, rejected, short type)
+func (o *adOracle) ask(data []byte, bc bool) (bool, bool, string) {
+	for len(o.lg.ch) > 0 {
+		<-o.lg.ch
+	}
+	atomic.StoreInt32(&o.lg.dropped, 0)
+	paniced := false
+	func() {
+		defer func() {
+			if recover() != nil {
+				paniced = true
+			}
+		}()
+		o.party.OnMsg(data, 40000, bc)
+	}()
+	if paniced {
+		return false, false, ""
+	}
+	if atomic.LoadInt32(&o.lg.dropped) > 0 {
+		return true, true, "" // OnMsg could not parse it: the library never sees it
+	}
+	select {
+	case txt := <-o.lg.ch:
+		i := strings.Index(txt, "Type: ")
+		if i < 0 {
+			return false, false, ""
+		}
+		rest := txt[i+6:]
+		if j := strings.IndexAny(rest, ", "); j >= 0 {
+			rest = rest[:j]
+		}
+		return true, false, strings.TrimPrefix(rest, "binance.tsslib.")
+	case <-time.After(3 * time.Second):
+		return false, false, ""
+	}
+}
+
+// adCaptureValues: genuine value bytes per message type from honest runs (EdDSA key generation + signing, ECDSA signing from the
+// stored key)
+func adCaptureValues(fixture string) map[string][]byte {
+	res := map[string][]byte{}
+	run := func(ad string, ids []int, thr int, phase string, shares map[int][]byte) map[int][]byte {
+		s := afNewSession(ad, ids, nil)
+		s.capture = map[string][]byte{}
+		if shares != nil {
+			for _, id := range ids {
+				if s.parties[id].SetShareData(shares[id]) != nil {
+					return nil
+				}
+			}
+		}
+		s.start(thr)
+		ctx, cancel := context.WithTimeout(context.Background(), 30*time.Second)
+		defer cancel()
+		var wg sync.WaitGroup
+		var mu sync.Mutex
+		outs := map[int][]byte{}
+		for _, id := range ids {
+			id := id
+			wg.Add(1)
+			go func() {
+				defer wg.Done()
+				defer func() { recover() }()
+				var out []byte
+				var err error
+				if phase == "keygen" {
+					out, err = s.parties[id].KeyGen(ctx)
+				} else {
+					out, err = s.parties[id].Sign(ctx, []byte("capture digest capture digest 01"))
+				}
+				if err == nil {
+					mu.Lock()
+					outs[id] = out
+					mu.Unlock()
+				}
+			}()
+		}
+		wg.Wait()
+		s.close()
+		s.mu.Lock()
+		for u, d := range s.capture {
+			res[u] = pbAnyValue(d)
+		}
+		s.mu.Unlock()
+		return outs
+	}
+	if sh := run("eddsa", []int{1, 2}, 1, "keygen", nil); len(sh) == 2 {
+		run("eddsa", []int{1, 2}, 1, "sign", sh)
+	}
+	if fixture != "" {
+		if sh, err := afShares("ecdsa", []int{1, 2, 3}, 1, fixture); err == nil {
+			run("ecdsa", []int{1, 2, 3}, 1, "sign", sh)
+		}
+	}
+	return res
+}
+
+func adEncodingExec(job adJob, r *adRun) {
+	if len(job.Encodings) == 0 {
+		return
+	}
+	values := adCaptureValues(job.Fixture)
+	classifiers := map[string]adParty{}
+	oracles := map[string]*adOracle{}
+	for _, ad := range []string{"ecdsa", "eddsa"} {
+		classifiers[ad] = adNewParty(ad, 1, &adLogger{run: &adRun{t: -1}, p: 1})
+		oracles[ad] = adNewOracle(ad, job.Fixture)
+	}
+	defer func() {
+		for _, o := range oracles {
+			if o != nil {
+				o.cancel()
+			}
+		}
+	}()
+	for i, e := range job.Encodings {
+		ts := adShort(e.T)
+		v, genuine := values[ts]
+		if !genuine || len(v) == 0 {
+			v = pbLenField(1, []byte{byte(i), 0xAB, 0xCD, 0xEF}) // a well-formed message body with one bytes field
+		}
+		w := append([]byte(nil), v...)
+		w[len(w)-1] ^= 1 // a conflicting message of the same type and shape
+		data := adBuildEncoding(e.Items, e.T, e.D, v, w)
+		var round uint8
+		var bc bool
+		var err error
+		done := false
+		r.guard(1, "ClassifyMsg", func() {
+			round, bc, err = classifiers[e.Adapter].ClassifyMsg(data)
+			done = true
+		})
+		if !done {
+			continue
+		}
+		lobs, lrej, lt := false, false, ""
+		if o := oracles[e.Adapter]; o != nil {
+			lobs, lrej, lt = o.ask(data, bc)
+		}
+		r.log(obj{"e": "enc", "i": i, "ad": e.Adapter, "ty": ts, "dc": adShort(e.D), "items": e.Items, "r": int(round), "bc": bc, "err": err != nil,
+			"lobs": lobs, "lrej": lrej, "lt": lt, "gen": genuine})
+	}
 }
 
 func adSeed() int64 {
@@ -968,7 +1272,14 @@ func init() {
 		readJob(&job)
 		em := newEmitter()
 		defer em.flush()
-		adClassifyExec(job, em)
+		// the hand-built envelopes / encodings run while the sessions do
+		var cwg sync.WaitGroup
+		cwg.Add(1)
+		go func() {
+			defer cwg.Done()
+			adClassifyExec(job, em)
+		}()
+		defer cwg.Wait()
 		maxHung := job.MaxHung
 		if maxHung <= 0 {
 			maxHung = 3
@@ -1042,6 +1353,7 @@ type afSession struct {
 	dropped int
 	wdone   bool
 	panics  []string
+	capture map[string][]byte // short type URL -> first message of that type (when non-nil)
 }
 
 func afNewSession(ad string, ids []int, c *afCase) *afSession {
@@ -1104,6 +1416,11 @@ func (s *afSession) start(thr int) {
 			s.sent[from]++
 			n := s.sent[from]
 			c := s.c
+			if s.capture != nil {
+				if _, ok := s.capture[su]; !ok {
+					s.capture[su] = data
+				}
+			}
 			silent := c != nil && c.Fault == "vanish" && c.P == from && n > c.K
 			s.mu.Unlock()
 			if silent {
